@@ -27,4 +27,17 @@ a, b = '<!-- AUTOGEN:STATUS -->', '<!-- /AUTOGEN:STATUS -->'
 if a in s:
     s = s[:s.index(a) + len(a)] + '\n' + table + '\n' + s[s.index(b):]
     open(p, 'w').write(s)
+# seeded table
+srows = ['| property | seeded change | needs, in order to manifest | result with the registered quick check |', '|---|---|---|---|']
+for x in sorted(glob.glob(f'{root}/seeded/*/meta.json')):
+    m = json.load(open(x)); v = m.get('coordinator_verification', {})
+    clip = lambda t, n: (t[:n] + '…') if len(t) > n else t
+    srows.append('| %s | %s | %s | **%s** — %s |' % (m.get('property'), clip(m.get('summary', '').replace('|', '\\|').replace('\n', ' '), 260),
+                 clip(m.get('needs_to_manifest', '').replace('|', '\\|').replace('\n', ' '), 220), v.get('verdict', '?'), clip(v.get('result', '').replace('|', '\\|'), 200)))
+stable = '\n'.join(srows)
+s = open(p).read()
+a, b = '<!-- AUTOGEN:SEEDED -->', '<!-- /AUTOGEN:SEEDED -->'
+if a in s:
+    s = s[:s.index(a) + len(a)] + '\n' + stable + '\n' + s[s.index(b):]
+    open(p, 'w').write(s)
 print(table)
